@@ -167,6 +167,9 @@ where
         data.extend_from_slice(bytes_of(&Ix::DISCRIMINANT));
         self.data.serialize(&mut data)?;
 
+        #[cfg(star_frame_verif)]
+        crate::verif_hooks::set_pending_seeds(signers_seeds);
+
         // SAFETY:
         // Our CpiAccountSet implementation ensures that the array has been initialized up to the index
         unsafe {
@@ -245,6 +248,12 @@ macro_rules! impl_handle_cpi_array {
                         );
 
 
+                        #[cfg(star_frame_verif)]
+                        if let Some(res) = crate::verif_hooks::intercept_cpi(program_id.as_array(), data, &metas, &infos) {
+                            res?;
+                            return Ok(());
+                        }
+
                         pinocchio::cpi::invoke_signed(
                             &PinocchioInstruction {
                                 program_id: program_id.as_array(),
@@ -309,6 +318,14 @@ impl HandleCpiArray for DynamicCpiAccountSetLen {
             &*std::ptr::from_ref::<[MaybeUninit<&AccountInfo>]>(infos_slice)
                 .cast::<[&AccountInfo; 64]>()
         };
+
+        #[cfg(star_frame_verif)]
+        if let Some(res) =
+            crate::verif_hooks::intercept_cpi(program_id.as_array(), data, metas_slice, &infos_slice[..infos_index])
+        {
+            res?;
+            return Ok(());
+        }
 
         pinocchio::cpi::slice_invoke_signed(
             &PinocchioInstruction {
